@@ -15,7 +15,7 @@ func init() {
 		ID: "C02",
 		Explain: "Scope: the in-module call-graph closure of (*x509.Certificate).MarshalJSON and JsonifyExtensions, every MarshalJSON method of packages x509, x509/pkix, x509/ct, ct, json, encoding/asn1 and util (encoding/json reaches them by reflection), CheckSignature*, VerifyHostname, CollectAllNames, CertPool.AddCert and verifier Graph.AddCert. " +
 			"R-ORDER: a slice that is filled while ranging over a map and then returned or stored passes through a sort with a total order on its elements on every path (sort.Strings/Ints/Float64s, slices.Sort, or sort.Slice/SliceStable whose less function is exactly s[i] < s[j]); no clock or random source is reachable from the JSON closure. " +
-			"R-BOUNDS: for the functions listed in c02_covered.go (discharged completely by the bounds prover when frozen) every index and slice bound, including indexes driven by the range variable of a different slice, is covered on every path. R-LOOP: every loop of the scope makes progress. R-PANIC: no function of the scope ends in panic on all paths; " +
+			"R-PURE: none of the roots writes through a reference parameter (receiver included), directly or through in-module callees, so serialising or checking a certificate does not change it (AddCert excepted). R-FRESH: no loop of the scope lets a value built in a buffer or decode target that outlives the iteration escape the iteration. R-BOUNDS: for the functions listed in c02_covered.go (discharged completely by the bounds prover when frozen) every index and slice bound, including indexes driven by the range variable of a different slice, is covered on every path. R-LOOP: every loop of the scope makes progress. R-PANIC: no function of the scope ends in panic on all paths; " +
 			"each GraphEdgeSet.addOrPanic call in Graph.AddCert is reached only with an edge that was created in the call or tested absent.",
 		NotCov: "totality beyond these shapes (nil dereferences, bounds in functions outside the covered list), and byte-identical output other than through map order, clocks and random sources.",
 		Floor:  120,
@@ -102,6 +102,36 @@ func runC02(c *Ctx) {
 		}
 	}
 	c.OK("R-ORDER", "JSON closure", "clock and random sources searched", "-", fmt.Sprintf("%d functions", len(jsonScope)))
+
+	// ---------------- R-PURE: serialising does not modify the certificate
+	sum := NewParamWriteSummary(w, scope)
+	npure := 0
+	for _, fn := range roots {
+		if len(fn.Blocks) == 0 {
+			continue
+		}
+		for _, p := range fn.Params {
+			if !isRefType(p.Type()) {
+				continue
+			}
+			npure++
+			c.Sites++
+			wit, written := sum.writes[p]
+			if fn.Name() == "AddCert" {
+				continue // inserting into a pool/graph writes its receiver by definition
+			}
+			c.Check(!written, "R-PURE", short(FuncName(fn)), "does not write through its parameter "+p.Name()+" (directly or through callees)", w.Pos(fn.Pos()), wit)
+		}
+	}
+	c.Check(npure >= 30, "R-PURE", "certificate operations", "reference parameters of the roots enumerated", "-", fmt.Sprint(npure))
+
+	// ---------------- R-FRESH
+	for _, fn := range scope {
+		for i, r := range loopFreshness(fn) {
+			c.Fail("R-FRESH", short(FuncName(fn)), fmt.Sprintf("no value that leaves a loop iteration is built in storage that outlives it (#%d)", i+1), w.InstrPos(r.In), r.What)
+		}
+	}
+	c.OK("R-FRESH", "certificate operations", "loops searched for reused buffers and decode targets", "-", fmt.Sprintf("%d functions", len(scope)))
 
 	// ---------------- R-LOOP
 	nl := 0
